@@ -1,7 +1,7 @@
 (* Property C10 — truncation keeps the right singular values.  Statements only; each is closed
    by `exact`.  Model: Trunc/Select.v (truncate_singular_values and its helpers).
    `select p s` = (new_s before rescaling, s_trunc); `truncate p s` adds the renormalisation
-   and the ValueError on an empty spectrum.  `descending` = non-increasing. *)
+   and the ValueError on an empty spectrum (renormalise as repaired in db7fff1).  `descending` = non-increasing. *)
 From Coq Require Import QArith List Bool Arith ZArith Sorted.
 From PTN Require Import Trunc.Select Trunc.SelectProofs.
 Import ListNotations.
@@ -83,7 +83,7 @@ Print Assumptions C10_all_zero.
 Theorem C10_renorm_scales : forall (p : params) (s : list Q), s <> [] -> renorm p = true ->
   let kept := fst (select p s) in
   ~ qsum kept == 0 ->
-  truncate p s = Some (Some (map (fun x => x * qsum s / qsum kept) kept), snd (select p s)).
+  truncate p s = Some (map (fun x => x * qsum s / qsum kept) kept, snd (select p s)).
 Proof. exact renorm_scales. Qed.
 Print Assumptions C10_renorm_scales.
 
@@ -92,10 +92,10 @@ Theorem C10_renorm_sum : forall (s kept : list Q), ~ qsum kept == 0 ->
 Proof. exact renorm_preserves_sum. Qed.
 Print Assumptions C10_renorm_sum.
 
-(* outside the guard the float result is not finite (0/0); on a descending non-negative
-   spectrum this happens only for the all-zero spectrum *)
-Theorem C10_renorm_guard : forall (p : params) (s : list Q), s <> [] -> bond_ok (max_bond p) ->
-  renorm p = true -> qsum (fst (select p s)) == 0 -> truncate p s = Some (None, snd (select p s)).
+(* when the kept values sum to 0 there is nothing to rescale: they are returned unchanged (no 0/0);
+   on a descending non-negative spectrum this happens only for the all-zero spectrum *)
+Theorem C10_renorm_guard : forall (p : params) (s : list Q), s <> [] -> renorm p = true ->
+  qsum (fst (select p s)) == 0 -> truncate p s = Some (fst (select p s), snd (select p s)).
 Proof. exact renorm_zero. Qed.
 Print Assumptions C10_renorm_guard.
 
@@ -106,9 +106,15 @@ Proof. exact kept_sum_zero_all_zero. Qed.
 Print Assumptions C10_renorm_guard_zero_only.
 
 Theorem C10_no_renorm : forall (p : params) (s : list Q), s <> [] -> renorm p = false ->
-  truncate p s = Some (Some (fst (select p s)), snd (select p s)).
+  truncate p s = Some (fst (select p s), snd (select p s)).
 Proof. exact no_renorm. Qed.
 Print Assumptions C10_no_renorm.
+
+(* renormalisation never changes the number of values, and never touches the second component *)
+Theorem C10_renorm_length : forall (p : params) (s : list Q), s <> [] ->
+  exists k d, truncate p s = Some (k, d) /\ length k = length (fst (select p s)) /\ d = snd (select p s).
+Proof. exact truncate_length. Qed.
+Print Assumptions C10_renorm_length.
 
 (* the only rejected spectrum is the empty one *)
 Theorem C10_empty_rejected : forall (p : params) (s : list Q), truncate p s = None <-> s = [].
@@ -151,6 +157,13 @@ Print Assumptions C10_example_value.
 Example C10_example_sum :
   truncate {| max_bond := BInf; rel_tol := Fin 0; total_tol := Fin (1#2);
               renorm := true; sum_trunc := true; sum_renorm := true |} [1; 1; 1; 1]
-  = Some (Some [4#3; 4#3; 4#3], [1]).
+  = Some ([4#3; 4#3; 4#3], [1]).
 Proof. vm_compute. reflexivity. Qed.
 Print Assumptions C10_example_sum.
+
+Example C10_example_zero :
+  truncate {| max_bond := BInf; rel_tol := Fin 0; total_tol := Fin 0;
+              renorm := true; sum_trunc := true; sum_renorm := true |} [0; 0]
+  = Some ([0], [0]).
+Proof. vm_compute. reflexivity. Qed.
+Print Assumptions C10_example_zero.
